@@ -62,6 +62,15 @@ class Boom(Exception):
     pass
 
 
+class Idx(object):
+    """a non-int object implementing __index__: returns the (measured, mortal) integer object it was given"""
+    def __init__(self, n):
+        self.n = n
+
+    def __index__(self):
+        return self.n
+
+
 def bad_default():
     raise Boom("default")
 
@@ -105,6 +114,7 @@ class Node(HasTraits):
     enum = Enum(ENUM_VALUES)
     lb = List(Tuple(Any(), Float()), maxlen=2)
     # compound validators with static float ranges (validate_trait_complex, case 4): out-of-range numbers fall through
+    eis = Either(Int, Str)
     er2 = Either(Range(0.0, 1.0), Range(10.0, 11.0))
     ers = Either(Range(0.0, 1.0), Str)
     era = Either(Range(0.0, 1.0), Any)
@@ -150,6 +160,8 @@ def build(spec, env):
         return env["bigs"][spec[1]]
     if k == "fl":
         return env["floats"][spec[1]]
+    if k == "idx":
+        return Idx(env["bigs"][spec[1]])
     if k == "n":
         return spec[1]
     if k == "t":
